@@ -36,13 +36,17 @@ import (
 
 type op struct {
 	k    byte // n p a r w u c f v s t
-	a, b int
+	a, b int  // for calls b = recv + 2*abn; abn: 0 normal return, 1 hook panics, 2 PlaceArgs panics, 3 Goexit in a goroutine
 }
 
 func (o op) String() string {
 	switch o.k {
 	case 'n', 'r', 'v', 't':
 		return fmt.Sprintf("%c:%d", o.k, o.a)
+	case 'c':
+		if o.b >= 2 {
+			return fmt.Sprintf("c:%d:%d:%d", o.a, o.b&1, o.b>>1)
+		}
 	}
 	return fmt.Sprintf("%c:%d:%d", o.k, o.a, o.b)
 }
@@ -55,6 +59,10 @@ func parseOp(s string) op {
 	}
 	if len(f) > 2 {
 		o.b, _ = strconv.Atoi(f[2])
+	}
+	if len(f) > 3 {
+		abn, _ := strconv.Atoi(f[3])
+		o.b += 2 * abn
 	}
 	return o
 }
@@ -108,6 +116,7 @@ type thr struct {
 	mu        *sync.Mutex
 	results   []byte
 	delivered bool
+	abn       int // how the current call's hook ends (see op.b)
 }
 
 type world struct {
@@ -120,9 +129,13 @@ type world struct {
 	cs      map[int]*capnp.Client
 	ws      map[int]*capnp.WeakClient
 	ps      map[int]*capnp.ClientPromise
+	steps   []int // steps granted per thread
 }
 
 var curWorld *world
+
+// raceKs: for mode "race", the number of steps of thread 1 after which each racer runs.
+var raceKs []int
 
 func goid() int64 {
 	var buf [64]byte
@@ -186,13 +199,36 @@ func (h *ihook) callout(ev string) {
 	}
 }
 
+// abnormalEnd ends the call-out the way the current op asks for (after the scheduler has
+// granted the "return" step): panic in the hook, panic in the caller's PlaceArgs callback run
+// by the hook, or runtime.Goexit.
+func (h *ihook) abnormalEnd(placeArgs func(capnp.Struct) error) {
+	th := h.w.me()
+	if th == nil {
+		return
+	}
+	switch th.abn {
+	case 1:
+		panic(sentinelErr{})
+	case 2:
+		if placeArgs != nil {
+			placeArgs(capnp.Struct{})
+		}
+		panic(sentinelErr{})
+	case 3:
+		runtime.Goexit()
+	}
+}
+
 func (h *ihook) Send(ctx context.Context, s capnp.Send) (*capnp.Answer, capnp.ReleaseFunc) {
 	h.callout("S")
+	h.abnormalEnd(s.PlaceArgs)
 	return capnp.ErrorAnswer(s.Method, sentinelErr{}), func() {}
 }
 
 func (h *ihook) Recv(ctx context.Context, r capnp.Recv) capnp.PipelineCaller {
 	h.callout("V")
+	h.abnormalEnd(nil)
 	r.Reject(sentinelErr{})
 	return nil
 }
@@ -273,28 +309,32 @@ func (w *world) exec(th *thr, o op) (res byte) {
 		return 'k'
 	case 'c':
 		th.delivered = false
-		m := capnp.Method{InterfaceID: 1, MethodID: 2}
-		if o.b == 0 {
-			ans, rel := w.cs[o.a].SendCall(context.Background(), capnp.Send{Method: m})
-			_, err := ans.Struct()
-			rel()
-			if th.delivered {
-				return 's'
-			}
-			if err != nil {
+		th.abn = o.b >> 1
+		defer func() { th.abn = 0 }()
+		if o.b>>1 == 3 {
+			// the call is made in a goroutine of its own, which leaves by runtime.Goexit
+			// from inside the hook; this thread waits for it
+			done := make(chan struct{})
+			go func() {
+				id := goid()
+				w.lk.Lock()
+				w.byGoid[id] = th
+				w.lk.Unlock()
+				defer close(done)
+				defer func() {
+					w.lk.Lock()
+					delete(w.byGoid, id)
+					w.lk.Unlock()
+				}()
+				w.doCall(th, o)
+			}()
+			<-done
+			if !th.delivered {
 				return 'e'
 			}
-			return '?'
+			return 'P'
 		}
-		ret := &returner{}
-		w.cs[o.a].RecvCall(context.Background(), capnp.Recv{Method: m, ReleaseArgs: func() {}, Returner: ret})
-		if th.delivered {
-			return 's'
-		}
-		if ret.err != nil {
-			return 'e'
-		}
-		return '?'
+		return w.doCall(th, o)
 	case 'f':
 		p := w.ps[o.a]
 		if p == nil {
@@ -321,6 +361,33 @@ func (w *world) exec(th *thr, o op) (res byte) {
 			return 't'
 		}
 		return 'f'
+	}
+	return '?'
+}
+
+// doCall performs SendCall (o.b == 0) or RecvCall through the client in slot o.a.
+func (w *world) doCall(th *thr, o op) byte {
+	m := capnp.Method{InterfaceID: 1, MethodID: 2}
+	if o.b&1 == 0 {
+		place := func(capnp.Struct) error { panic(sentinelErr{}) }
+		ans, rel := w.cs[o.a].SendCall(context.Background(), capnp.Send{Method: m, PlaceArgs: place})
+		_, err := ans.Struct()
+		rel()
+		if th.delivered {
+			return 's'
+		}
+		if err != nil {
+			return 'e'
+		}
+		return '?'
+	}
+	ret := &returner{}
+	w.cs[o.a].RecvCall(context.Background(), capnp.Recv{Method: m, ReleaseArgs: func() {}, Returner: ret})
+	if th.delivered {
+		return 's'
+	}
+	if ret.err != nil {
+		return 'e'
 	}
 	return '?'
 }
@@ -379,6 +446,7 @@ func runHistory(t *testing.T, progs [][]op, sched []int, mode string, r *Rand, h
 		for i, p := range progs {
 			th := &thr{id: i, prog: p, grant: make(chan bool)}
 			w.threads = append(w.threads, th)
+			w.steps = append(w.steps, 0)
 			go w.threadMain(th)
 			synctest.Wait()
 		}
@@ -421,6 +489,7 @@ func runHistory(t *testing.T, progs [][]op, sched []int, mode string, r *Rand, h
 			}
 			used = append(used, pick)
 			last = pick
+			w.steps[pick]++
 			w.threads[pick].grant <- true
 			synctest.Wait()
 		}
@@ -471,6 +540,21 @@ func choose(w *world, m int, mode string, last int, r *Rand) int {
 		}
 	}
 	lastEn := m&(1<<last) != 0
+	if mode == "race" {
+		// thread 1 is the main operation; racer j (thread j+2) starts once thread 1 has taken
+		// raceKs[j] steps (or cannot go on) and then runs to completion
+		mainOn := m&2 != 0
+		for j, k := range raceKs {
+			tid := j + 2
+			if tid < len(w.threads) && m&(1<<tid) != 0 && (w.steps[1] >= k || !mainOn) {
+				return tid
+			}
+		}
+		if mainOn {
+			return 1
+		}
+		return en[0]
+	}
 	if mode == "seq" {
 		// keep running the same thread until its op completes, it blocks, or it is in a call-out
 		st := w.threads[last].status
@@ -562,7 +646,7 @@ func (g *gen) genOp(th int) (op, bool) {
 		g.root[d] = g.wroot[w]
 		return op{'u', w, d}, true
 	case 4: // call
-		return op{'c', g.clientSlot(), r.Intn(2)}, true
+		return op{'c', g.clientSlot(), callKind(r)}, true
 	case 5: // Fulfill
 		if g.np == 0 {
 			return op{}, false
@@ -679,6 +763,15 @@ func genHistory(r *Rand, mode string) ([][]op, bool) {
 	return progs, g.allowMis
 }
 
+// callKind: recv + 2*abn; one call in four ends abnormally (hook panic, PlaceArgs panic, Goexit).
+func callKind(r *Rand) int {
+	k := r.Intn(2)
+	if r.Intn(4) == 0 {
+		k += 2 * (1 + r.Intn(3))
+	}
+	return k
+}
+
 // genDirected: a promise with 1-2 clients is fulfilled with a client of a plain capability
 // while other threads release / add references / call through the promise's clients.
 func genDirected(r *Rand) [][]op {
@@ -716,7 +809,7 @@ func genDirected(r *Rand) [][]op {
 				p = append(p, op{'a', c, nc})
 				nc++
 			case 2:
-				p = append(p, op{'c', c, r.Intn(2)})
+				p = append(p, op{'c', c, callKind(r)})
 			case 3:
 				if nw > 0 && i == 0 {
 					p = append(p, op{'u', 0, nc})
@@ -780,7 +873,7 @@ func genDirectedWeak(r *Rand) [][]op {
 			p = append(p, op{'u', i, d})
 			switch r.Intn(4) {
 			case 0:
-				p = append(p, op{'c', d, r.Intn(2)})
+				p = append(p, op{'c', d, callKind(r)})
 			case 1:
 				p = append(p, op{'r', d, 0})
 			case 2:
@@ -790,12 +883,72 @@ func genDirectedWeak(r *Rand) [][]op {
 		progs = append(progs, p)
 	}
 	if r.Intn(2) == 0 {
-		progs = append(progs, []op{{'c', strong[0], r.Intn(2)}})
+		progs = append(progs, []op{{'c', strong[0], callKind(r)}})
 	}
 	if viaPromise && r.Bool() {
 		progs = append(progs, []op{{'f', 0, 0}})
 	}
 	return progs
+}
+
+// genChain: chains of promises fulfilled with clients of other promises.  Slot 0 is a client of a
+// plain capability T, slot i (1..L) the client of promise i-1.  The set-up thread fulfils the
+// lower promises (leaving the handles of the upper levels stale: their c.h still points at a
+// resolved promise hook) and releases handles so that T's count is low; thread 1 fulfils the top
+// promise with the (stale) client below it; the racers operate on clients of the top promise.
+// The caller enumerates every point of thread 1 at which the racers run.
+func genChain(r *Rand) (progs [][]op, nracers int) {
+	L := 2 + r.Intn(2)
+	setup := []op{{'n', 0, 0}}
+	for i := 0; i < L; i++ {
+		setup = append(setup, op{'p', i + 1, i})
+	}
+	nc := L + 1
+	top := L // slot of the top promise's client
+	topClients := []int{top}
+	if r.Intn(3) == 0 {
+		setup = append(setup, op{'a', top, nc})
+		topClients = append(topClients, nc)
+		nc++
+	}
+	// fulfil promises 0..L-2 bottom-up in the set-up (sometimes leave the last of them to a racer)
+	for i := 0; i < L-1; i++ {
+		setup = append(setup, op{'f', i, i}) // promise i <- client in slot i
+	}
+	// touch some intermediate handles (un-stales them) or not
+	for i := 1; i < L; i++ {
+		if r.Intn(4) == 0 {
+			setup = append(setup, op{'v', i, 0})
+		}
+	}
+	// drop references so that T is held by few handles
+	for i := 0; i < L-1; i++ {
+		if r.Intn(4) != 0 {
+			setup = append(setup, op{'r', i, 0})
+		}
+	}
+	progs = [][]op{setup, {{'f', L - 1, L - 1}}}
+	if r.Intn(4) == 0 {
+		progs[1] = append(progs[1], op{'r', L - 1, 0})
+	}
+	nracers = 1 + r.Intn(2)
+	for j := 0; j < nracers; j++ {
+		c := topClients[r.Intn(len(topClients))]
+		var p []op
+		switch r.Pick(6, 2, 2, 1) {
+		case 0:
+			p = []op{{'r', c, 0}}
+		case 1:
+			p = []op{{'a', c, nc}, {'r', c, 0}}
+			nc++
+		case 2:
+			p = []op{{'c', c, callKind(r)}, {'r', c, 0}}
+		default:
+			p = []op{{'t', c, 0}, {'r', c, 0}}
+		}
+		progs = append(progs, p)
+	}
+	return progs, nracers
 }
 
 // ---------------------------------------------------------------- main
@@ -810,6 +963,7 @@ func run(out *Out, r *Rand, tier string, replay []string) {
 	tests := []testing.InternalTest{{Name: "C10", F: func(t *testing.T) {
 		capnp.VerifYieldHook = yieldHook
 		opKinds := map[string]int{}
+		var seen map[string]bool
 		opName := map[byte]string{'n': "NewClient", 'p': "NewPromisedClient", 'a': "AddRef", 'r': "Release", 'w': "WeakRef",
 			'u': "WeakClient.AddRef", 'c': "SendCall/RecvCall", 'f': "Fulfill", 'v': "IsValid", 's': "IsSame", 't': "State"}
 		runOne := func(kind, mode string, progs [][]op, sched []int) {
@@ -853,6 +1007,12 @@ func run(out *Out, r *Rand, tier string, replay []string) {
 				}
 			}
 			line := fmt.Sprintf("%s %s %s %s", kind, fixed, progsString(progs), ss)
+			if seen != nil {
+				if seen[line] {
+					return // the same schedule as an earlier racing point
+				}
+				seen[line] = true
+			}
 			nontriv := strings.Contains(res.obs, "X") || strings.Contains(res.obs, "S") || strings.Contains(res.obs, "V")
 			out.Case(kind, line, res.obs, Cls(res.obs), nontriv)
 		}
@@ -886,6 +1046,27 @@ func run(out *Out, r *Rand, tier string, replay []string) {
 				}
 				if i%8 == 3 {
 					runOne(mode, mode, genDirectedWeak(r), nil)
+					continue
+				}
+				if i%20 == 7 {
+					// exhaustive over the racing points of a short chain history
+					progs, nr := genChain(r)
+					seen = map[string]bool{}
+					const K = 11
+					if nr == 1 {
+						for k := 0; k <= K; k++ {
+							raceKs = []int{k}
+							runOne("race", "race", progs, nil)
+						}
+					} else {
+						for k := 0; k <= K; k++ {
+							for k2 := 0; k2 <= K; k2++ {
+								raceKs = []int{k, k2}
+								runOne("race", "race", progs, nil)
+							}
+						}
+					}
+					seen = nil
 					continue
 				}
 				progs, mis := genHistory(r, mode)
